@@ -698,6 +698,10 @@ pub enum Case06 {
     /// bitmask AVP built through its public constructor, each capability
     /// passed to the parameter that bears its name
     Ctor { attr: u16, cap_a: bool, cap_b: bool },
+    /// related values (the same message, one with another Ns, id, AVP value,
+    /// AVP order ...) encoded one after the other on one thread; each must
+    /// come out as the specification says
+    History(Vec<Case>),
 }
 
 fn first_diff(a: &[u8], b: &[u8]) -> usize {
@@ -709,6 +713,21 @@ fn first_diff(a: &[u8], b: &[u8]) -> usize {
 
 fn exec_c06(case: &Case06, obs: &mut Obs) -> Result<(), Failure> {
     match case {
+        Case06::History(steps) => {
+            obs.count("probe:related-values-history");
+            on_fresh_thread(|| {
+                for (i, st) in steps.iter().enumerate() {
+                    if let Err(mut f) = exec_c06(&Case06::Value(st.clone()), obs) {
+                        if steps.len() > 1 {
+                            f.class = format!("history:{}", f.class);
+                            f.detail = format!("value #{i} of {} related values encoded one after the other: {}", steps.len(), f.detail);
+                        }
+                        return Err(f);
+                    }
+                }
+                Ok(())
+            })
+        }
         Case06::Ctor { attr, cap_a, cap_b } => {
             let bits = match cal(*attr) {
                 Ok(b) => b,
@@ -873,12 +892,55 @@ impl Scenario for C06 {
             }
             ctx.check::<C06>(&case);
         }
+        // related values one after the other
+        {
+            let limit = *wl.pick(&[64usize, 300, 1500]);
+            let base = if wl.chance(3, 4) { gen_control(&mut wl, &sw, limit) } else { gen_data(&mut wl, &sw) };
+            let n = wl.urange(2, 5);
+            let mut steps = vec![Case {
+                values: vec![Value::Msg(base.clone())],
+                writer: WriterCfg::Real,
+                prefix: Vec::new(),
+                reader: ReaderCfg::Real,
+            }];
+            for m in related_messages(&mut wl, &base, n) {
+                let (writer, prefix) = if sm.chance(1, 3) { draw_writer(&mut sm) } else { (WriterCfg::Real, Vec::new()) };
+                steps.push(Case {
+                    values: vec![Value::Msg(m)],
+                    writer,
+                    prefix,
+                    reader: ReaderCfg::Real,
+                });
+            }
+            ctx.check::<C06>(&Case06::History(steps));
+        }
     }
     fn execute(case: &Case06, obs: &mut Obs) -> Result<(), Failure> {
         exec_c06(case, obs)
     }
     fn shrink(case: &Case06) -> Vec<Case06> {
         match case {
+            Case06::History(steps) => {
+                let mut out = Vec::new();
+                if steps.len() == 1 {
+                    out.push(Case06::Value(steps[0].clone()));
+                }
+                for i in 0..steps.len() {
+                    let mut v = steps.clone();
+                    v.remove(i);
+                    if !v.is_empty() {
+                        out.push(Case06::History(v));
+                    }
+                }
+                for i in 0..steps.len() {
+                    for alt in shrink_case(&steps[i]).into_iter().take(10) {
+                        let mut v = steps.clone();
+                        v[i] = alt;
+                        out.push(Case06::History(v));
+                    }
+                }
+                out
+            }
             Case06::Ctor { .. } => Vec::new(),
             Case06::Value(c) => shrink_case(c).into_iter().map(Case06::Value).collect(),
         }
@@ -1321,9 +1383,21 @@ impl Scenario for C07 {
 pub struct C09;
 
 fn exec_c09(case: &Case, obs: &mut Obs) -> Result<(), Failure> {
+    // A history is cut into segments at every refused value: whatever a
+    // refused encode leaves in its writer is unspecified, so what follows
+    // goes into a fresh writer of the same kind; what preceded it must be
+    // intact. (got octets, value indices, octets held when the refusal
+    // happened / None for the last segment)
+    struct Segment {
+        got: Vec<u8>,
+        values: Vec<usize>,
+        refused: Option<(usize, String)>,
+    }
+    let mut segments: Vec<Segment> = Vec::new();
     let mut w = SimWriter::new(&case.writer, &case.prefix);
-    let mut last_len = case.prefix.len();
-    let mut encoded: Vec<CrateValue> = Vec::new();
+    let base = w.base;
+    let mut last_len = base + case.prefix.len();
+    let mut current: Vec<usize> = Vec::new();
     for (i, v) in case.values.iter().enumerate() {
         let cv = match to_crate(v) {
             Some(c) => c,
@@ -1350,21 +1424,22 @@ fn exec_c09(case: &Case, obs: &mut Obs) -> Result<(), Failure> {
             obs.count("probe:reentrant-encode");
         }
         if let Err(c) = encode_into(&cv, &mut w) {
-            // not encodable at all is C07's business; encodable into an
-            // empty writer but not here is a violation
-            if encode_fresh(&cv).is_err() {
-                return Ok(());
-            }
-            return Err(Failure::new(
-                "C09",
-                "position-independent",
-                &cls,
-                format!(
-                    "value #{i} encodes into an empty writer but fails at writer offset {}: {}",
-                    last_len,
-                    c.text()
-                ),
-            ));
+            // refused: keep what the writer held before this value began
+            let mut got = w.contents();
+            got.truncate(w.value_start.saturating_sub(base));
+            segments.push(Segment {
+                got,
+                values: std::mem::take(&mut current),
+                refused: Some((i, c.text())),
+            });
+            obs.count("probe:encode-after-refused-encode");
+            let cfg = match &case.writer {
+                WriterCfg::Full(_) => WriterCfg::Vec,
+                other => other.clone(),
+            };
+            w = SimWriter::new(&cfg, &case.prefix);
+            last_len = base + case.prefix.len();
+            continue;
         }
         if let Some(vv) = w.violations.first() {
             return Err(Failure::new(
@@ -1387,44 +1462,82 @@ fn exec_c09(case: &Case, obs: &mut Obs) -> Result<(), Failure> {
             ));
         }
         last_len = now;
-        encoded.push(cv);
-    }
-    // the reference encodings are taken afterwards, each into a fresh empty
-    // writer (taking them first would let a "last value encoded" shortcut
-    // see its own value)
-    let mut expected = case.prefix.clone();
-    for cv in &encoded {
-        match encode_fresh(cv) {
-            Ok(f) => expected.extend_from_slice(&f),
-            Err(_) => return Ok(()),
-        }
+        current.push(i);
     }
     obs.writer_calls += w.calls;
     if w.straddles > 0 {
         obs.add("probe:back-patch-straddles-page", w.straddles);
     }
-    let got = w.contents();
-    if got != expected {
-        let d = first_diff(&got, &expected);
-        let cls = if d < case.prefix.len() {
-            "prefix-corrupted"
-        } else {
-            "concatenation"
-        };
-        return Err(Failure::new(
-            "C09",
-            "prefix-and-concatenation",
-            cls,
-            format!(
-                "writer content differs from prefix ++ encode(v1) ++ .. ++ encode(vk) at offset {} (prefix {} octets; got {} octets, expected {}): got ..{}.., expected ..{}..",
-                d,
-                case.prefix.len(),
-                got.len(),
-                expected.len(),
-                to_hex(&got[d.saturating_sub(4).min(got.len())..(d + 8).min(got.len())]),
-                to_hex(&expected[d.saturating_sub(4).min(expected.len())..(d + 8).min(expected.len())])
-            ),
-        ));
+    segments.push(Segment {
+        got: w.contents(),
+        values: current,
+        refused: None,
+    });
+    // The reference encodings are taken afterwards (taking them first would
+    // let a "last value encoded" shortcut see its own value) and on a thread
+    // of their own (nothing the history left on this thread reaches them),
+    // each into a fresh empty writer; refused values last.
+    let values = &case.values;
+    let full = matches!(case.writer, WriterCfg::Full(_));
+    let refs: Vec<Option<Vec<u8>>> = on_fresh_thread(|| {
+        let mut order: Vec<usize> = segments.iter().flat_map(|s| s.values.iter().copied()).collect();
+        order.extend(segments.iter().filter_map(|s| s.refused.as_ref().map(|r| r.0)));
+        let mut out: Vec<Option<Vec<u8>>> = vec![None; values.len()];
+        for i in order {
+            if let Some(cv) = to_crate(&values[i]) {
+                out[i] = encode_fresh(&cv).ok();
+            }
+        }
+        out
+    });
+    for seg in &segments {
+        if let Some((i, why)) = &seg.refused {
+            // encodable alone but refused here: only a full writer may do that
+            if refs[*i].is_some() && !full {
+                return Err(Failure::new(
+                    "C09",
+                    "position-independent",
+                    if matches!(values[*i], Value::Avp(_)) { "avp" } else { "message" },
+                    format!("value #{i} encodes into an empty writer but fails after {} octets of earlier output: {}", seg.got.len(), why),
+                ));
+            }
+        }
+        let mut expected = case.prefix.clone();
+        for &i in &seg.values {
+            match &refs[i] {
+                Some(f) => expected.extend_from_slice(f),
+                None => return Ok(()), // encoded here but not alone: C07's business
+            }
+        }
+        if seg.got != expected {
+            let d = first_diff(&seg.got, &expected);
+            let cls = if d < case.prefix.len() {
+                "prefix-corrupted"
+            } else if seg.refused.is_some() {
+                "earlier-output-changed-by-refused-encode"
+            } else {
+                "concatenation"
+            };
+            return Err(Failure::new(
+                "C09",
+                "prefix-and-concatenation",
+                cls,
+                format!(
+                    "writer content differs from prefix ++ encode(v1) ++ .. ++ encode(vk) at offset {} (prefix {} octets; got {} octets, expected {}; values {:?}{}): got ..{}.., expected ..{}..",
+                    d,
+                    case.prefix.len(),
+                    seg.got.len(),
+                    expected.len(),
+                    seg.values,
+                    match &seg.refused {
+                        Some((i, _)) => format!(", then value #{i} was refused"),
+                        None => String::new(),
+                    },
+                    to_hex(&seg.got[d.saturating_sub(4).min(seg.got.len())..(d + 8).min(seg.got.len())]),
+                    to_hex(&expected[d.saturating_sub(4).min(expected.len())..(d + 8).min(expected.len())])
+                ),
+            ));
+        }
     }
     Ok(())
 }
@@ -1457,7 +1570,46 @@ impl Scenario for C09 {
                     }
                 });
             }
-            let (writer, prefix) = draw_writer(&mut sm);
+            // related values in one history: copies and near-copies of an
+            // earlier message of the sequence
+            if values.len() >= 2 && wl.chance(1, 3) {
+                let src = wl.usize_below(values.len());
+                if let Value::Msg(m) = values[src].clone() {
+                    for r in related_messages(&mut wl, &m, 2) {
+                        let at = wl.usize_below(values.len());
+                        if at != src {
+                            values[at] = Value::Msg(r);
+                        }
+                    }
+                }
+            }
+            // a value the encoder refuses (too large for its length field)
+            // in the middle of the history: what follows goes into a fresh writer
+            if values.len() >= 2 && wl.chance(1, 10) {
+                let at = wl.usize_below(values.len() - 1);
+                let bl = *wl.pick(&[1018usize, 1100, 2000]);
+                let big = SpecAvp { attr: 7, val: Val::Bytes(wl.bytes(bl)) };
+                values[at] = if wl.bool() {
+                    Value::Avp(big)
+                } else {
+                    Value::Msg(SpecMessage::Control {
+                        length: 0,
+                        tunnel_id: wl.u16(),
+                        session_id: 0,
+                        ns: 0,
+                        nr: 0,
+                        avps: vec![SpecAvp { attr: 0, val: Val::Code(1) }, SpecAvp { attr: 9, val: Val::U16(7) }, big],
+                    })
+                };
+                ctx.obs.count("fault:refused-value-inside-history");
+            }
+            let (mut writer, prefix) = draw_writer(&mut sm);
+            if sm.chance(1, 12) && prefix.len() < 5000 {
+                // a writer that runs full somewhere inside the history
+                let total: usize = values.iter().map(|v| spec_of(v).len()).sum();
+                writer = WriterCfg::Full(sm.urange(0, total.min(6000)));
+                ctx.obs.count("fault:writer-full");
+            }
             // stale `length` members that coincide with a writer position:
             // the end position of the message, its own true size, the
             // running total without the prefix
